@@ -1,2 +1,291 @@
-(* C06 setwise proofs: placeholder *)
-From TT Require Import Lib.Base Model.Matchers Spec.C06.
+(* C06 - MatchesSetwise on the boolean matrix rows[i][j] = "matcher i matches value j":
+   the greedy loop of the model against the existence of a one-to-one assignment. *)
+From Coq Require Import Permutation.
+From TT Require Import Lib.Base Lib.Sort Model.Matchers Spec.C06.
+
+(* ---------- picks ---------- *)
+Lemma picks_perm_of {A} (l : list A) x rest : In (x, rest) (picks l) -> Permutation l (x :: rest).
+Proof.
+  revert x rest; induction l as [|y r IH]; intros x rest H; simpl in H; [contradiction|].
+  destruct H as [H|H].
+  - injection H as -> ->. reflexivity.
+  - apply in_map_iff in H as [[a b] [E Hin]]. simpl in E. injection E as <- <-.
+    rewrite (IH _ _ Hin). apply perm_swap.
+Qed.
+
+Lemma picks_in {A} (l : list A) x rest : In (x, rest) (picks l) -> In x l.
+Proof. intro H. apply picks_perm_of in H. apply (Permutation_in _ (Permutation_sym H)). left; reflexivity. Qed.
+
+Lemma picks_split {A} (l1 l2 : list A) x : In (x, l1 ++ l2) (picks (l1 ++ x :: l2)).
+Proof.
+  induction l1 as [|y r IH]; simpl; [left; reflexivity|].
+  right. apply in_map_iff. exists (x, r ++ l2). split; [reflexivity|exact IH].
+Qed.
+
+Lemma picks_of_perm {A} (l : list A) x rest' :
+  Permutation l (x :: rest') -> exists rest, In (x, rest) (picks l) /\ Permutation rest rest'.
+Proof.
+  intro P. assert (Hin : In x l) by (apply (Permutation_in _ (Permutation_sym P)); left; reflexivity).
+  apply in_split in Hin as [l1 [l2 ->]].
+  exists (l1 ++ l2). split; [apply picks_split|].
+  apply Permutation_cons_inv with (a := x). rewrite <- P. apply Permutation_middle.
+Qed.
+
+(* ---------- the documented predicate on the matrix ---------- *)
+Definition Assignment (rows : list (list bool)) (js : list nat) : Prop :=
+  exists rows', Permutation rows rows' /\ Forall2 (fun r j => at_ j r = true) rows' js.
+
+Lemma assign_spec rows js : assign rows js = true <-> Assignment rows js.
+Proof.
+  revert rows; induction js as [|j t IH]; intro rows; simpl; split.
+  - destruct rows; [|discriminate]. intros _. exists []. split; constructor.
+  - intros [rows' [P F]]. inversion F; subst. apply Permutation_sym, Permutation_nil in P. subst. reflexivity.
+  - intro H. apply existsb_exists in H as [[r rest] [Hin H]]. simpl in H.
+    apply andb_true_iff in H as [Hr Ha]. apply IH in Ha as [rows'' [P F]].
+    exists (r :: rows''). split; [|constructor; assumption].
+    rewrite (picks_perm_of _ _ _ Hin). apply perm_skip. exact P.
+  - intros [rows' [P F]]. inversion F as [|r j' rows'' t' Hr F']; subst.
+    destruct (picks_of_perm _ _ _ P) as [rest [Hin P']].
+    apply existsb_exists. exists (r, rest). split; [exact Hin|]. simpl.
+    apply andb_true_iff. split; [exact Hr|]. apply IH. exists rows''. split; assumption.
+Qed.
+
+Lemma Assignment_perm rows rows2 js : Permutation rows rows2 -> Assignment rows js -> Assignment rows2 js.
+Proof. intros P [r' [P' F]]. exists r'. split; [|exact F]. rewrite <- P. exact P'. Qed.
+
+(* ---------- the greedy loop ---------- *)
+Lemma take_perm j rem rem' : take j rem = Some rem' -> exists r, at_ j r = true /\ Permutation rem (r :: rem').
+Proof.
+  revert rem'; induction rem as [|r t IH]; intros rem' H; simpl in H; [discriminate|].
+  destruct (at_ j r) eqn:E.
+  - injection H as <-. exists r. split; [exact E|reflexivity].
+  - destruct (take j t) as [t'|] eqn:T; [|discriminate]. injection H as <-.
+    destruct (IH _ eq_refl) as [r0 [Hr P]]. exists r0. split; [exact Hr|].
+    rewrite P. apply perm_swap.
+Qed.
+
+Lemma take_none j rem : take j rem = None -> Forall (fun r => at_ j r = false) rem.
+Proof.
+  induction rem as [|r t IH]; simpl; intro H; [constructor|].
+  destruct (at_ j r) eqn:E; [discriminate|]. destruct (take j t); [discriminate|]. constructor; auto.
+Qed.
+
+Lemma take_incl j rem rem' : take j rem = Some rem' -> incl rem' rem.
+Proof.
+  intro H. destruct (take_perm _ _ _ H) as [r [_ P]]. intros x Hx.
+  apply (Permutation_in _ (Permutation_sym P)). right; exact Hx.
+Qed.
+
+Lemma greedy_incl js : forall rows rem nm, greedy rows js = (rem, nm) -> incl rem rows.
+Proof.
+  induction js as [|j t IH]; intros rows rem nm H; simpl in H.
+  - injection H as <- <-. apply incl_refl.
+  - destruct (take j rows) as [rows'|] eqn:T.
+    + eapply incl_tran; [eapply IH; exact H|]. eapply take_incl; exact T.
+    + destruct (greedy rows t) as [r0 nm0] eqn:G. injection H as <- <-. eapply IH; exact G.
+Qed.
+
+(* no matcher that is left over matches a value that was left over *)
+Lemma greedy_leftovers js : forall rows rem nm, greedy rows js = (rem, nm) ->
+  Forall (fun j => Forall (fun r => at_ j r = false) rem) nm.
+Proof.
+  induction js as [|j t IH]; intros rows rem nm H; simpl in H.
+  - injection H as <- <-. constructor.
+  - destruct (take j rows) as [rows'|] eqn:T.
+    + eapply IH; exact H.
+    + destruct (greedy rows t) as [r0 nm0] eqn:G. injection H as <- <-. constructor.
+      * apply Forall_forall. intros r Hr.
+        apply (proj1 (Forall_forall _ _) (take_none _ _ T)). eapply greedy_incl; eassumption.
+      * eapply IH; exact G.
+Qed.
+
+Lemma greedy_sound js : forall rows, greedy rows js = ([], []) -> Assignment rows js.
+Proof.
+  induction js as [|j t IH]; intros rows H; simpl in H.
+  - injection H as ->. exists []. split; constructor.
+  - destruct (take j rows) as [rows'|] eqn:T.
+    + destruct (take_perm _ _ _ T) as [r [Hr P]].
+      destruct (IH _ H) as [rows'' [P' F]].
+      exists (r :: rows''). split; [rewrite P; apply perm_skip; exact P'|constructor; assumption].
+    + destruct (greedy rows t) as [r0 nm0]. discriminate.
+Qed.
+
+(* ---------- all_loop / any_loop: when the loops return None ---------- *)
+Lemma all_loop_none fo rs : forall acc,
+  all_loop fo rs acc = None <-> acc = [] /\ Forall (fun r => r = None) rs.
+Proof.
+  induction rs as [|r t IH]; intro acc; simpl.
+  - destruct (rev acc) eqn:E.
+    + split; [intros _|reflexivity]. split; [|constructor].
+      apply (f_equal (@rev _)) in E. rewrite rev_involutive in E. exact E.
+    + split; [discriminate|]. intros [-> _]. discriminate.
+  - destruct r as [d|].
+    + destruct fo.
+      * split; [discriminate|]. intros [_ F]. inversion F; discriminate.
+      * rewrite IH. split; [intros [? _]; discriminate|]. intros [_ F]. inversion F; discriminate.
+    + rewrite IH. split; intros [-> F]; (split; [reflexivity|]).
+      * constructor; [reflexivity|exact F].
+      * inversion F; assumption.
+Qed.
+
+Lemma any_loop_none rs : forall acc, any_loop rs acc = None <-> Exists (fun r => r = None) rs.
+Proof.
+  induction rs as [|r t IH]; intro acc; simpl.
+  - split; [discriminate|]. intro H; inversion H.
+  - destruct r as [d|].
+    + rewrite IH. split; intro H; [right; exact H|]. inversion H; [discriminate|assumption].
+    + split; [intros _; left; reflexivity|reflexivity].
+Qed.
+
+(* ---------- setwise_post ---------- *)
+Lemma setwise_post_none rows n : setwise_post rows n = None <-> greedy rows (seq 0 n) = ([], []).
+Proof.
+  unfold setwise_post. destruct (greedy rows (seq 0 n)) as [rem nm] eqn:G.
+  destruct nm as [|j0 nm]; destruct rem as [|r0 rem]; try (split; [reflexivity|reflexivity]);
+    try (split; discriminate).
+  split; [|discriminate]. intro H. exfalso.
+  pose proof (greedy_leftovers _ _ _ _ G) as L. inversion L as [|? ? L0 _]; subst.
+  inversion L0 as [|? ? Hr0 _]; subst.
+  simpl in H. unfold ann, listwise in H.
+  destruct (all_loop false _ []) eqn:E; [discriminate|].
+  apply all_loop_none in E as [_ F]. simpl in F. inversion F as [|? ? Hx _]; subst.
+  rewrite Hr0 in Hx. discriminate.
+Qed.
+
+(* ---------- completeness where no value is matched by two matchers ---------- *)
+Lemma count_true_perm l l' : Permutation l l' -> count_true l = count_true l'.
+Proof.
+  unfold count_true. induction 1; simpl; try congruence.
+  - destruct x; simpl; congruence.
+  - destruct x, y; reflexivity.
+Qed.
+
+Lemma count_true_pos l : In true l -> 1 <= count_true l.
+Proof.
+  unfold count_true. induction l as [|b t IH]; simpl; [contradiction|].
+  intros [->|H]; simpl; [lia|]. destruct b; simpl; [lia|auto].
+Qed.
+
+Definition unamb (rows : list (list bool)) (js : list nat) : Prop :=
+  forall j, In j js -> count_true (map (at_ j) rows) <= 1.
+
+Lemma take_unique j : forall l r rest,
+  count_true (map (at_ j) l) <= 1 -> In (r, rest) (picks l) -> at_ j r = true -> take j l = Some rest.
+Proof.
+  induction l as [|x l' IH]; intros r rest C Hin Hr; simpl in Hin; [contradiction|].
+  simpl. destruct Hin as [E|Hin].
+  - injection E as -> ->. rewrite Hr. reflexivity.
+  - apply in_map_iff in Hin as [[a b] [E Hin]]. simpl in E. injection E as <- <-.
+    assert (C1 : 1 <= count_true (map (at_ j) l')).
+    { apply count_true_pos. apply in_map_iff. exists a. split; [exact Hr|]. eapply picks_in; exact Hin. }
+    unfold count_true in C, C1. simpl in C. destruct (at_ j x) eqn:Ex; simpl in C; [lia|].
+    rewrite (IH a b); [reflexivity| |exact Hin|exact Hr]. unfold count_true. exact C.
+Qed.
+
+Lemma unamb_sub rows r rest js : Permutation rows (r :: rest) -> unamb rows js -> unamb rest js.
+Proof.
+  intros P U j Hj. specialize (U j Hj).
+  rewrite (count_true_perm _ _ (Permutation_map (at_ j) P)) in U.
+  unfold count_true in *. simpl in U. destruct (at_ j r); simpl in U; lia.
+Qed.
+
+Lemma greedy_complete js : forall rows, unamb rows js -> assign rows js = true -> greedy rows js = ([], []).
+Proof.
+  induction js as [|j t IH]; intros rows U H; simpl in *.
+  - destruct rows; [reflexivity|discriminate].
+  - apply existsb_exists in H as [[r rest] [Hin H]]. simpl in H. apply andb_true_iff in H as [Hr Ha].
+    rewrite (take_unique j rows r rest); [|apply U; left; reflexivity|exact Hin|exact Hr].
+    apply IH; [|exact Ha].
+    eapply unamb_sub; [apply picks_perm_of; exact Hin|]. intros j' Hj'. apply U. right; exact Hj'.
+Qed.
+
+Lemma amb_m_false rows n : amb_m rows n = false <-> unamb rows (seq 0 n).
+Proof.
+  unfold amb_m, unamb. split.
+  - intros H j Hj. destruct (Nat.ltb 1 (count_true (map (at_ j) rows))) eqn:E.
+    + assert (X : existsb (fun j => Nat.ltb 1 (count_true (map (at_ j) rows))) (seq 0 n) = true)
+        by (apply existsb_exists; exists j; split; assumption). congruence.
+    + apply Nat.ltb_ge in E. exact E.
+  - intro H. destruct (existsb _ _) eqn:E; [|reflexivity].
+    apply existsb_exists in E as [j [Hj E]]. apply Nat.ltb_lt in E. specialize (H j Hj). lia.
+Qed.
+
+Lemma unamb_perm rows rows' js : Permutation rows rows' -> unamb rows js -> unamb rows' js.
+Proof.
+  intros P U j Hj. rewrite <- (count_true_perm _ _ (Permutation_map (at_ j) P)). apply U; exact Hj.
+Qed.
+
+(* ---------- the set-iteration order ---------- *)
+Lemma map_snd_combine {A B} (s : list A) (l : list B) : length s = length l -> map snd (combine s l) = l.
+Proof.
+  revert l; induction s as [|a s IH]; intros [|b l] H; simpl in *; try discriminate; [reflexivity|].
+  f_equal. apply IH. lia.
+Qed.
+
+Lemma reorder_perm {A} rk (l : list A) : Permutation l (reorder rk l).
+Proof.
+  unfold reorder.
+  rewrite <- (map_snd_combine (seq 0 (length l)) l) at 1 by apply seq_length.
+  apply Permutation_map. apply isort_perm.
+Qed.
+
+(* ---------- the three facts about MatchesSetwise, for every iteration order ---------- *)
+Theorem setwise_sound_m rk rows n : setwise_post (reorder rk rows) n = None -> assign rows (seq 0 n) = true.
+Proof.
+  intro H. apply setwise_post_none in H. apply greedy_sound in H.
+  apply assign_spec. eapply Assignment_perm; [|exact H]. apply Permutation_sym, reorder_perm.
+Qed.
+
+Theorem setwise_complete_m rk rows n :
+  amb_m rows n = false -> assign rows (seq 0 n) = true -> setwise_post (reorder rk rows) n = None.
+Proof.
+  intros A H. apply setwise_post_none. apply greedy_complete.
+  - eapply unamb_perm; [apply reorder_perm|]. apply amb_m_false. exact A.
+  - apply assign_spec. eapply Assignment_perm; [apply reorder_perm|]. apply assign_spec. exact H.
+Qed.
+
+Theorem setwise_exact_m rk rows n :
+  amb_m rows n = false -> (setwise_post (reorder rk rows) n = None <-> assign rows (seq 0 n) = true).
+Proof. intro A. split; [apply setwise_sound_m|apply setwise_complete_m; exact A]. Qed.
+
+(* ---------- from the matrix back to matchers and values ---------- *)
+Section Readable.
+  Context {M V : Type} (f : M -> V -> bool).
+
+  Lemma forall2_matrix_gen (l : list V) : forall (ms : list M) (pre : list V) (js : list V),
+    l = pre ++ js ->
+    (Forall2 (fun r j => at_ j r = true) (map (fun m => map (f m) l) ms) (seq (length pre) (length js))
+     <-> Forall2 (fun m x => f m x = true) ms js).
+  Proof.
+    induction ms as [|m ms IH]; intros pre js E; simpl.
+    - split; intro H; inversion H as [|? ? ? ? ? ? E1 E2]; subst.
+      + destruct js; [constructor|discriminate].
+      + constructor.
+    - destruct js as [|x js]; simpl.
+      + split; intro H; inversion H.
+      + assert (Hat : at_ (length pre) (map (f m) l) = f m x).
+        { unfold at_. subst l. rewrite map_app. rewrite app_nth2; rewrite map_length; [|lia].
+          rewrite Nat.sub_diag. reflexivity. }
+        specialize (IH (pre ++ [x]) js). rewrite app_length in IH. simpl in IH.
+        rewrite Nat.add_1_r in IH.
+        rewrite <- app_assoc in IH. specialize (IH E).
+        split; intro H; inversion H; subst; constructor.
+        * rewrite <- Hat. assumption.
+        * apply IH. assumption.
+        * rewrite Hat. assumption.
+        * apply IH. assumption.
+  Qed.
+
+  Lemma assign_matrix (ms : list M) (l : list V) :
+    assign (map (fun m => map (f m) l) ms) (seq 0 (length l)) = true
+    <-> exists ms', Permutation ms ms' /\ Forall2 (fun m x => f m x = true) ms' l.
+  Proof.
+    rewrite assign_spec. unfold Assignment. split.
+    - intros [rows' [P F]].
+      apply Permutation_sym, Permutation_map_inv in P as [ms' [-> P]].
+      exists ms'. split; [exact P|].
+      apply (forall2_matrix_gen l ms' [] l eq_refl). exact F.
+    - intros [ms' [P F]]. exists (map (fun m => map (f m) l) ms'). split; [apply Permutation_map; exact P|].
+      apply (forall2_matrix_gen l ms' [] l eq_refl). exact F.
+  Qed.
+End Readable.
